@@ -144,6 +144,7 @@ class Machine(RuleBasedStateMachine):
         if unknown:
             case = self.h.case()
             self.h.restore()
+            runner.record_violation(self._sink, case, unknown)
             raise runner.Violation(case, unknown)
 
     @rule(name=st.one_of(st.sampled_from(NAMES), jv.small_text), pred=st.sampled_from(PREDS))
